@@ -74,6 +74,33 @@ Proof.
   exfalso. apply Hn. exact (tucker_einsum_ok_fits core fs skip t E).
 Qed.
 
+(* tucker_to_tensor(modes=range(len(factors))) is tucker_to_tensor without modes (the default) *)
+Lemma multi_mode_dot_modes_seq : forall (Ms : list tensor) k (T : tensor),
+  multi_mode_dot_modes Op T Ms (seq k (length Ms)) = multi_mode_dot_from Op k T Ms None false.
+Proof.
+  induction Ms as [|M Ms IH]; intros k T; [reflexivity|]. cbn [length seq multi_mode_dot_modes multi_mode_dot_from].
+  destruct (negb (ndim M =? 2)); [reflexivity|]. destruct (mode_dot Op T M k); cbn [rbind]; [apply IH | reflexivity].
+Qed.
+Theorem tucker_modes_default (core : tensor) fs :
+  tucker_to_tensor_modes Op core fs (seq 0 (length fs)) = tucker_to_tensor Op core fs None false.
+Proof. apply multi_mode_dot_modes_seq. Qed.
+(* and it returns a tensor only if every (factor, mode) pair fits *)
+Theorem tucker_modes_ok_fits : forall (Ms : list tensor) ms (T t : tensor), length ms = length Ms -> NoDup ms ->
+  multi_mode_dot_modes Op T Ms ms = Ok t ->
+  Forall2 (fun (M : tensor) m => ndim M = 2 /\ m < ndim T /\ ncols M = nth m (shape T) 0) Ms ms.
+Proof.
+  induction Ms as [|M Ms IH]; intros [|m ms] T t Hl Hd; cbn [length] in Hl; try discriminate; [constructor|].
+  cbn [multi_mode_dot_modes]. destruct (Nat.eqb_spec (ndim M) 2) as [H2|]; cbn [negb]; [|discriminate].
+  destruct (mode_dot Op T M m) as [T'|] eqn:E; cbn [rbind]; [|discriminate]. intros H.
+  apply mode_dot_ok_inv in E. destruct E as (_ & Hm & Hc & Hs). inversion Hd as [|? ? Hnin Hd']; subst.
+  constructor; [auto|].
+  pose proof (IH ms T' t ltac:(lia) Hd' H) as HF.
+  clear - HF Hs Hnin. revert HF. generalize Ms. induction ms as [|m' ms IHm]; intros Ms' HF; inversion HF as [|M1 m1 Ms1 ms1 Hhead Htail]; subst; constructor.
+  - destruct Hhead as (A1 & A2 & A3). unfold ndim in *. rewrite Hs, set_nth_length in A2. rewrite Hs in A3.
+    rewrite nth_set_nth_other in A3 by (intros ->; apply Hnin; now left). auto.
+  - apply IHm; [intros Hin; apply Hnin; now right | assumption].
+Qed.
+
 (* ---------- (a) the shape hypotheses of the entry-level theorems imply that the validator accepts ---------- *)
 Lemma tt_cores_chain_shapes : forall r (cs : list tensor) ns rl, tt_cores F r cs ns rl -> exists rs, chain_shapes F r cs ns rs rl.
 Proof.
